@@ -50,11 +50,22 @@ def extra_items_for(target):
     for j, child in enumerate(target[1]):
         out.append((f"aggregate-wrapping-copy-of-child:{j}", ("FOO", [child]), sorted({0, j})))
         out.append((f"vendor-aggregate-wrapping-copy-of-child:{j}", ("INTU.X", [child]), sorted({0, j})))
+    # (c) unknown aggregates whose content is vendor-prefixed itself (a pass that strips dotted tags must only look at
+    # the children of the aggregate it is grooming)
+    out.append(("aggregate-with-vendor-content", ("XYZ", [("INTU.BID", "1")]), sorted({0, n // 2})))
+    out.append(("vendor-aggregate-with-vendor-content", ("INTU.EXT", [("INTU.BID", "1"), ("FOO", [("INTU.Y", "2")])]), sorted({0, n // 2})))
     try:
         cls = U.cls_by_name(target[0])
     except Exception:
         return out
     declared = declared_tags(target[0])
+    # (d) a vendor-prefixed and a longer tag ending in the name of each declared child - present in this instance or not
+    present = {child[0]: j for j, child in enumerate(target[1])}
+    for tag in sorted(declared - {target[0]}):
+        pos = sorted({present.get(tag, n // 2), n})
+        out.append((f"vendor-prefixed-name-of-declared-child:{tag}", ("INTU." + tag, "9.9"), pos))
+        if "FWD" + tag not in declared:
+            out.append((f"name-ending-in-name-of-declared-child:{tag}", ("FWD" + tag, "9.9"), pos[:1]))
     for name in sorted(dir(cls)):
         tag = name.upper()
         if name.startswith("_") or tag in declared or not re.fullmatch(r"[A-Z][A-Z0-9]*", tag):
